@@ -346,8 +346,6 @@ let run_more (toks : string list) : string option =
            let v = val_of v in
            Some (b01 (ri_contains_value i v) ^
                  (match v with
-                  | VInt z -> " " ^ b01 (ri_contains_integer i z)
-                  | VDy d -> " " ^ b01 (ri_contains_dyadic i d)
                   | VRat q -> " " ^ b01 (ri_contains i q)
                   | _ -> ""))
        | _ -> raise (Bad "rcval"))
@@ -360,7 +358,7 @@ let run_more (toks : string list) : string option =
            let inside =
              if i.ipt then cmpq i.ia = 0
              else (let ca = cmpq i.ia in if i.ia_open then ca > 0 else ca >= 0) && (let cb = cmpq i.ib in if i.ib_open then cb < 0 else cb <= 0) in
-           Some (b01 inside ^ (if kind = "r" || kind = "a" then (match xv with XFin (RA _) -> " " ^ b01 inside | XFin (RQ _) -> " " ^ b01 inside | _ -> "") else ""))
+           ignore kind; Some (b01 inside)
        | _ -> raise (Bad "rcalg"))
   | "vcollapse" :: r -> let (i, r) = p_vi r in (match r with [v] -> Some (svi (vi_collapse_to i (val_of v))) | _ -> raise (Bad "vcollapse"))
   | "vseta" :: r -> let (i, r) = p_vi r in (match r with [v; o] -> Some (opt_itv str_val (vi_set_a i (val_of v) (o = "1"))) | _ -> raise (Bad "vseta"))
